@@ -4,6 +4,7 @@
 -/
 import PgmVerif.Props.C06
 import PgmVerif.Model.Score
+import PgmVerif.Proofs.ScoreEq
 namespace PgmVerif
 
 /-! ### the LRU cache returns the base scorer's numbers, for every history -/
@@ -155,6 +156,37 @@ theorem C10_rising_gamma (b : Rat) (n : Nat) :
     simp only [rising, fact, ih]
     push_cast
     ring
+
+/-! ### score equivalence across a covered edge (Proofs/ScoreEq.lean)
+
+X and Y have the same other parents (q joint configurations); `N j x y` are the counts.  Chickering (1995):
+two DAGs are Markov equivalent iff one is reached from the other by a sequence of covered-edge reversals, so
+these three identities are the whole algebraic content of "BDeu, BIC and AIC assign identical scores to
+Markov-equivalent DAGs"; the graph-theoretic chain itself is not proved here. -/
+
+/-- BDeu: local score of X | Pa times local score of Y | Pa ∪ {X} is symmetric in X and Y -/
+theorem C10_bdeu_covered_edge (ess : Rat) (hess : 0 < ess) (q rx ry : Nat) (hq : 0 < q) (hrx : 0 < rx) (hry : 0 < ry)
+    (N : Nat → Nat → Nat → Nat) :
+    bdeuExp ess rx (colsX q rx ry N) * bdeuExp ess ry (colsYgX q rx ry N)
+      = bdeuExp ess ry (colsX q ry rx (fun j y x => N j x y)) * bdeuExp ess rx (colsYgX q ry rx (fun j y x => N j x y)) :=
+  bdeu_covered_edge ess hess q rx ry hq hrx hry N
+
+/-- BIC / AIC: the maximised likelihood is symmetric, including empty cells and empty rows -/
+theorem C10_loglik_covered_edge (q rx ry : Nat) (N : Nat → Nat → Nat → Nat) :
+    llExp (colsX q rx ry N) * llExp (colsYgX q rx ry N)
+      = llExp (colsX q ry rx (fun j y x => N j x y)) * llExp (colsYgX q ry rx (fun j y x => N j x y)) :=
+  ll_covered_edge q rx ry N
+
+/-- BIC / AIC: so is the number of free parameters, hence the penalty -/
+theorem C10_nparams_covered_edge (q rx ry : Nat) (hrx : 0 < rx) (hry : 0 < ry) (N : Nat → Nat → Nat → Nat) :
+    nParams rx (colsX q rx ry N) + nParams ry (colsYgX q rx ry N)
+      = nParams ry (colsX q ry rx (fun j y x => N j x y)) + nParams rx (colsYgX q ry rx (fun j y x => N j x y)) :=
+  nParams_covered_edge q rx ry hrx hry N
+
+/-- non-vacuity / sanity: a concrete 2x2 table, both orientations, same BDeu value -/
+example : bdeuExp 1 2 (colsX 1 2 2 (fun _ x y => x + 2 * y)) * bdeuExp 1 2 (colsYgX 1 2 2 (fun _ x y => x + 2 * y)) =
+    bdeuExp 1 2 (colsX 1 2 2 (fun _ y x => x + 2 * y)) * bdeuExp 1 2 (colsYgX 1 2 2 (fun _ y x => x + 2 * y)) :=
+  C10_bdeu_covered_edge 1 (by norm_num) 1 2 2 (by norm_num) (by norm_num) (by norm_num) _
 
 example : (LRU.run (fun k : Nat => k * k) { maxSize := 2, entries := [] } [1, 2, 1, 3, 2]).2 = [1, 4, 1, 9, 4] := by
   decide
